@@ -17,6 +17,7 @@ class Contracts:
         self.extra_inline = tuple(extra_inline)
         self.fixed = dict(fixed or {})   # callee regex -> concrete value: the scenario under which a fragment is explored
         self.effects_inline = tuple(effects_inline)   # callees whose MIR is executed for its panic/assert edges; result stays opaque
+        self.check_unwrap = None
         self.table = [
             (r"^longest_filter$|^Arg::is_positional$|^builder::arg::Arg::is_positional$", self.inline, "longest_filter, Arg::is_positional: INLINED from their own MIR (not a contract)"),
             # (regex on callee text, handler, description)
@@ -53,6 +54,8 @@ class Contracts:
         if re.search(r"(^|::|>::)then_some::<.*>$", callee):
             self.used["bool::then_some(b, v): Some(v) iff b"] = self.used.get("bool::then_some(b, v): Some(v) iff b", 0) + 1
             return self.then_some
+        if getattr(self, "check_unwrap", None) and re.search(r"^Option::<.*>::(unwrap|expect)$", callee):
+            return self.unwrap
         if re.search(r"^<.* as PartialEq(<.*>)?>::ne$", callee):
             d = "PartialEq::ne(a, b) == !PartialEq::eq(a, b) (same symbol)"
             self.used[d] = self.used.get(d, 0) + 1
@@ -79,6 +82,19 @@ class Contracts:
             ob["via"] = callee
             ex.obligations.append(ob)
         return ex.typed_fresh(f"{callee}({argkey})#{len(ex.obligations)}", ty)
+
+    def unwrap(self, ex, callee, argv, argkey, ty, pc):
+        """Option::unwrap / expect: a panic edge when the option can be None.  Only options whose key
+        matches `check_unwrap` (e.g. results of Command::find) are checked; others are assumed Some."""
+        a = argv[0]
+        key = ex.key(a)
+        if re.search(self.check_unwrap, key):
+            some = ex.typed_fresh(f"is_some({key})", "bool")
+            ex.obligations.append({"fn": ex.fn.name, "block": "call", "kind": "panic", "msg": f"{callee.split('::')[-1]}() on `{key[:70]}` which can be None",
+                                   "pc": list(pc) + [f"(not {some[1]})"], "neg": "true"})
+            d = "Option::unwrap/expect on a checked lookup: panics iff the lookup is None"
+            self.used[d] = self.used.get(d, 0) + 1
+        return ex.typed_fresh(f"{callee}({argkey})", ty)
 
     def ne(self, ex, callee, argv, argkey, ty, pc):
         eq = ex.typed_fresh(f"{callee[:-4]}::eq({argkey})", "bool")
